@@ -285,16 +285,17 @@ type worldGen struct {
 // identifiers of every admissible spelling, names equal to generated method names, fields
 // colliding with each other's getters, oneof members colliding with nested types
 var goNamePools = map[string][]string{
-	"M": {"Item", "item", "_Item", "Item_", "I_tem", "item2", "Item2D", "ITEM", "i", "X_y", "Foo", "Bar", "foo_bar", "Get", "M_Foo", "Foo_", "text_block", "sha256sum", "s3bucket", "v1beta"},
-	"E": {"Kind", "kind", "_kind", "Kind_", "K_ind", "KIND", "Foo", "color3d", "x2y"},
-	"V": {"UNKNOWN", "first", "_second", "Third_", "o_ther", "x", "V1", "v_1"},
+	"M": {"Item", "item", "_Item", "Item_", "I_tem", "item2", "Item2D", "ITEM", "i", "X_y", "Foo", "Bar", "foo_bar", "Get", "M_Foo", "Foo_", "text_block", "sha256sum", "s3bucket", "v1beta", "z9a", "a0z", "Z0a_9z"},
+	"E": {"Kind", "kind", "_kind", "Kind_", "K_ind", "KIND", "Foo", "color3d", "x2y", "a9z", "z0_a"},
+	"V": {"UNKNOWN", "first", "_second", "Third_", "o_ther", "x", "V1", "v_1", "z9z", "a_0a"},
 	"f": {"foo", "get_foo", "reset", "string", "proto_message", "descriptor", "marshal", "unmarshal", "extension_map", "extension_range_array", "foo_", "_foo", "foo__bar",
 		"Foo", "fooBar", "foo1", "f_1", "get_reset", "get_get_foo", "x_y_z", "bar", "get_bar", "Reset", "reset_", "get", "get_", "item", "kind",
-		"sha256sum", "vector3d_point", "s3bucket", "ipv4_address", "x86", "a1b2c3", "utf8_2go"},
-	"of": {"foo", "bar", "item", "kind", "reset", "get_foo", "foo_", "Foo", "baz", "string", "get_bar", "Item", "Kind", "textBlock", "TextBlock", "fooBar", "FooBar", "md5hash", "I"},
-	"o": {"choice", "reset", "string", "which_one", "Choice", "_c", "c_", "get_foo", "descriptor"},
+		"sha256sum", "vector3d_point", "s3bucket", "ipv4_address", "x86", "a1b2c3", "utf8_2go",
+		"x0y", "x9y", "base10a", "n9", "a", "z", "a_z", "z_a", "zz_9aa", "_a0", "_9z", "az_za", "q7_z0a"},
+	"of": {"foo", "bar", "item", "kind", "reset", "get_foo", "foo_", "Foo", "baz", "string", "get_bar", "Item", "Kind", "textBlock", "TextBlock", "fooBar", "FooBar", "md5hash", "I", "x9z", "a0_z"},
+	"o": {"choice", "reset", "string", "which_one", "Choice", "_c", "c_", "get_foo", "descriptor", "z9a", "a_0z"},
 	"mp": {"labels", "index", "foo_map", "Attrs", "reset"}, "x": {"tag", "ext_1", "_note"},
-	"S": {"Api", "admin_svc", "_Svc", "svc2", "s3api"}, "Rpc": {"Get", "put_it", "_list", "List2", "get2nd"},
+	"S": {"Api", "admin_svc", "_Svc", "svc2", "s3api", "z9a_svc"}, "Rpc": {"Get", "put_it", "_list", "List2", "get2nd", "a0z", "z_9a"},
 }
 
 var namePools = map[string][]string{
